@@ -356,6 +356,38 @@ func (u *U) Eq(a, b *E) *E {
 			return u.Bool(False)
 		}
 	}
+	// (non-negative terms) + k == c with k > c: never
+	for i := 0; i < 2; i++ {
+		x, cst := a, b
+		if i == 1 {
+			x, cst = b, a
+		}
+		cv, isC := cst.IntVal()
+		if !isC || x.Op != "bin" || x.Aux != "+" {
+			continue
+		}
+		var k int64
+		nonNeg := true
+		var walk func(e *E)
+		walk = func(e *E) {
+			if v, ok := e.IntVal(); ok {
+				k += v
+				return
+			}
+			switch {
+			case e.Op == "bin" && e.Aux == "+" && !isStringT(e.Typ):
+				walk(e.Args[0])
+				walk(e.Args[1])
+			case e.Op == "len" || e.Op == "cap" || (e.Op == "call" && strings.HasPrefix(e.Aux, "math/bits.OnesCount")):
+			default:
+				nonNeg = false
+			}
+		}
+		walk(x)
+		if nonNeg && k > cv {
+			return u.Bool(False)
+		}
+	}
 	// s[len(s)-len(p):] == p  ->  HasSuffix(s, p);  s[:len(p)] == p  ->  HasPrefix(s, p)
 	// (as values: where the slice expression does not panic the two agree)
 	for i := 0; i < 2; i++ {
